@@ -106,7 +106,8 @@ class Words:
             return self.rng.choice(['x' + o + 'y', 'x' + o, o + 'y'])
         if self.unique:
             self.k += 1
-            base = self.rng.choice(['w', 'tok', 'ש', 'م', 'é', '\U0001F600z', 'q', '\U00020BB7z', '\U000E0101z'])
+            # (some tokens look like character references: bluebell has no such syntax, they are words)
+            base = self.rng.choice(['w', 'tok', 'ש', 'م', 'é', '\U0001F600z', 'q', '\U00020BB7z', '\U000E0101z', 'w', 'tok', '&amp;w', '&#38;w', '&lt;w', '&nbsp;w', '&copy;w', '%20w'])
             return '%s%dz' % (base, self.k)
         return self.rng.choice(PLAIN)
     def words(self, lo=1, hi=4):
@@ -122,7 +123,7 @@ def gen_attrs(rng, W, p=0.15):
         pairs = []
         for _ in range(rng.randint(1, 2)):
             pairs.append(rng.choice(['class', 'refersTo', 'status', 'title', 'period', 'alternativeTo']) +
-                         rng.choice([' v', ' #ref', ' a b', '']))
+                         rng.choice([' v', ' #ref', ' a b', '', ' a\u00a0b']))
         s += '{' + rng.choice(['|', ' | ', '|']).join(pairs) + '}'
     return s
 
